@@ -45,6 +45,9 @@ pub fn strategy() -> impl Strategy<Value = Case> {
         vec((any::<u16>(), any::<u16>()), 0..=4),
     )
         .prop_map(|(raw, state_k, rc, mode_k, picks, ncmd, undef)| {
+            // helper traces are keyed by working directory: keep target paths free of trailing slashes here
+            let mut raw = raw;
+            raw.trailing_slash = 0;
             let mut config = gen::build_config(&raw, CycleMode::Acyclic);
             let n = config.targets.len();
             // some targets keep their commands in a directory of their own choosing
